@@ -193,7 +193,7 @@ def run_fwd(ctx) -> RuleResult:
             seen.add(id(reg.func))
             funcs.append((reg.module, reg.func, _numpy_params(reg)))
     # helpers and non-registered public functions: cross-wiring check only
-    for module, qual, func in ctx.repo.all_functions():
+    for module, qual, func in ctx.repo.analysed_functions():
         if id(func) not in seen and not module.is_pyx:
             seen.add(id(func))
             funcs.append((module, func, None))
@@ -283,7 +283,7 @@ def run_twin(ctx) -> RuleResult:
         "both receive the same arguments in the same order",
     )
     n = 0
-    for module, qual, func in ctx.repo.all_functions():
+    for module, qual, func in ctx.repo.analysed_functions():
         for node in ast.walk(func):
             if not isinstance(node, ast.If) or not node.orelse:
                 continue
